@@ -636,7 +636,7 @@ class ActionTypeHint(Action):
             val_class = import_object(val_class)
         kwargs = dict(sub_add_kwargs) if sub_add_kwargs else {}
         if skip_args:
-            kwargs.setdefault("skip", set()).add(skip_args)
+            kwargs["skip"] = {*kwargs.get("skip", set()), skip_args}
         if is_subclass_spec(kwargs.get("default")):
             kwargs["default"] = kwargs["default"].get("init_args")
         parser = parent_parser.get()
